@@ -115,6 +115,23 @@ func (g *Gen) bigAmount() *big.Int {
 	}
 }
 
+// amountFor scales a structured amount so that its hub-unit equivalent stays below 10^30: the
+// model uses unbounded integers, while sdk.Int panics above 256 bits (products of two hub-unit
+// values appear in the fee distribution).  Overflow behaviour is exercised by the stress profile.
+func (g *Gen) amountFor(dec uint64) *big.Int {
+	a := g.bigAmount()
+	limit := new(big.Int).Exp(big.NewInt(10), big.NewInt(30), nil)
+	if dec < 18 {
+		limit.Quo(limit, new(big.Int).Exp(big.NewInt(10), big.NewInt(int64(18-dec)), nil))
+	} else {
+		limit.Mul(limit, new(big.Int).Exp(big.NewInt(10), big.NewInt(int64(dec-18)), nil))
+	}
+	for a.Cmp(limit) > 0 {
+		a.Quo(a, big.NewInt(1000003))
+	}
+	return a
+}
+
 func (g *Gen) stakingLine() string {
 	var parts []string
 	for _, v := range g.vals {
@@ -355,7 +372,7 @@ func (g *Gen) opDeposit() {
 			coin = ethHex([]byte{0x99, 1, 2, 3, 4, 5, 6, 7, 8, 9, 10, 11, 12, 13, 14, 15, 16, 17, 18, 19})
 		}
 	}
-	amt := g.bigAmount()
+	amt := g.amountFor(t.dec)
 	n := g.nextEvt[chain]
 	g.nextEvt[chain]++
 	h := g.eventHeight(chain)
@@ -368,7 +385,7 @@ func (g *Gen) opDeposit() {
 	rchain := g.pick([]string{"hub", "ethereum", "minter", "bsc", "hub", "nochain"})
 	fee := new(big.Int).Div(amt, big.NewInt(int64(2+g.rng.Intn(200))))
 	if g.rng.Intn(5) == 0 {
-		fee = g.bigAmount()
+		fee = g.amountFor(t.dec)
 	}
 	recv := g.pick(g.recips)
 	if rchain == "hub" {
@@ -391,7 +408,7 @@ func (g *Gen) opBatchExecuted() {
 	}
 	n := g.nextEvt[chain]
 	g.nextEvt[chain]++
-	feePaid := g.bigAmount()
+	feePaid := g.amountFor(18)
 	if g.rng.Intn(2) == 0 {
 		feePaid = big.NewInt(int64(g.rng.Intn(1000000)))
 	}
@@ -526,6 +543,8 @@ func runProfile(g *Gen, profile string, nops int) {
 		} else {
 			g.runKeys(nops)
 		}
+	case "stress":
+		g.runStress(nops)
 	case "abi":
 		g.runAbi(nops)
 	case "hash":
@@ -1234,4 +1253,104 @@ func (g *Gen) runKeys(nops int) {
 	}
 	g.do("end")
 	dumps()
+}
+
+// ---------------------------------------------------------------- stress profile (C05)
+
+// runStress builds blocks with many store writes (more than 64 dirty pool keys), several expired
+// transfers, batches timing out with many transfers, and reported events whose contents pass
+// stateless validation but are hostile: negative / zero / 2^255-scale amounts and fees, unknown
+// tokens and chains, missing prices, decimals above 18, odd receiver strings.
+func (g *Gen) runStress(nops int) {
+	r := g.rng
+	g.setup()
+	g.do(fmt.Sprintf("block %d %d", g.height, g.time))
+	g.do("begin")
+	hostile := func() *big.Int {
+		switch r.Intn(7) {
+		case 0:
+			return big.NewInt(-1)
+		case 1:
+			return big.NewInt(0)
+		case 2:
+			return new(big.Int).Sub(new(big.Int).Lsh(big.NewInt(1), 255), big.NewInt(1))
+		case 3:
+			return new(big.Int).Lsh(big.NewInt(1), 254)
+		case 4:
+			return new(big.Int).Neg(new(big.Int).Lsh(big.NewInt(1), 200))
+		default:
+			return g.bigAmount()
+		}
+	}
+	for i := 0; i < nops; i++ {
+		switch x := r.Intn(100); {
+		case x < 25:
+			// a burst of sends in one block
+			n := 10 + r.Intn(120)
+			chain := g.pick([]string{"ethereum", "minter", "bsc"})
+			toks := g.tokensOn(chain)
+			if len(toks) == 0 {
+				continue
+			}
+			for j := 0; j < n; j++ {
+				t := toks[r.Intn(len(toks))]
+				g.do(fmt.Sprintf("send %s %s %s %s %d %d %s", g.pick(g.accounts), chain, g.pick(g.recips), t.denom, 1000000000000+r.Intn(1000000), r.Intn(5)*1000000000, g.nextTag()))
+			}
+		case x < 45:
+			// hostile reported events, voted by everybody
+			chain := g.pick([]string{"ethereum", "minter", "bsc"})
+			toks := g.tokensOn(chain)
+			coin := "1"
+			if chain != "minter" {
+				coin = g.randAddr()
+			}
+			if len(toks) > 0 && r.Intn(4) > 0 {
+				coin = toks[r.Intn(len(toks))].ext
+			}
+			n := g.nextEvt[chain]
+			g.nextEvt[chain]++
+			h := g.eventHeight(chain)
+			amt := hostile()
+			if amt.Sign() < 0 {
+				amt = new(big.Int).Neg(amt) // a negative amount does not pass Validate; fees are not checked
+			}
+			switch r.Intn(3) {
+			case 0:
+				g.voteAll(chain, fmt.Sprintf("sth %d %s %s %s %s %d 0x%s", n, coin, amt, g.pick(g.recips), g.pick(g.accounts), h, g.nextTag()))
+			case 1:
+				recv := g.pick(g.recips)
+				rchain := g.pick([]string{"hub", "ethereum", "minter", "bsc", "nochain"})
+				if rchain == "hub" {
+					recv = "0x" + g.pick(g.accounts)
+					if r.Intn(4) == 0 {
+						recv = g.pick(g.accounts) // 40 hex characters without 0x: passes IsHexAddress
+					}
+				}
+				g.voteAll(chain, fmt.Sprintf("ttc %d %s %s %s %s %s %s %d 0x%s", n, coin, amt, hostile(), g.pick(g.recips), rchain, recv, h, g.nextTag()))
+			case 2:
+				bs := g.env.Batches(g.env.ctx, chain)
+				bn := uint64(1 + r.Intn(3))
+				if len(bs) > 0 {
+					b := bs[r.Intn(len(bs))]
+					coin, bn = b.ExternalTokenId, b.BatchNonce
+				}
+				g.voteAll(chain, fmt.Sprintf("bex %s %d %d %d 0x%s %s %s", coin, n, bn, h, g.nextTag(), hostile(), g.pick(g.recips)))
+			}
+		case x < 55:
+			g.opReqBatch()
+		case x < 60:
+			g.opCancel()
+		default:
+			g.do("end")
+			g.height += int64(1 + r.Intn(2))
+			if r.Intn(3) == 0 {
+				g.time += int64(100 + r.Intn(300)) // everything pending expires
+			} else {
+				g.time += int64(1 + r.Intn(8))
+			}
+			g.do(fmt.Sprintf("block %d %d", g.height, g.time))
+			g.do("begin")
+		}
+	}
+	g.do("end")
 }
